@@ -33,3 +33,113 @@ pub assume_specification<T>[ std::cmp::max ](a: T, b: T) -> (r: T) where T: std:
 ;
 
 } // verus!
+
+// ================================================================================================
+// salsa20 / chacha20 / cipher / generic-array / subtle / zeroize
+// ================================================================================================
+verus! {
+
+use generic_array::typenum::{UInt, UTerm, B0, B1};
+
+pub type U512ish = UInt<UInt<UInt<UInt<UInt<UInt<UInt<UInt<UInt<UTerm, B1>, B0>, B0>, B0>, B0>, B0>, B0>, B0>, B0>;
+
+#[verifier::reject_recursive_types(T)]
+#[verifier::external_type_specification]
+#[verifier::external_body]
+#[verifier::allow(undeclared_external_trait)]
+pub struct ExStreamCipherCoreWrapper<T>(salsa20::cipher::StreamCipherCoreWrapper<T>) where
+    <<T as salsa20::cipher::BlockSizeUser>::BlockSize as generic_array::typenum::IsLess<U512ish>>::Output: generic_array::typenum::NonZero,
+    <T as salsa20::cipher::BlockSizeUser>::BlockSize: generic_array::typenum::IsLess<U512ish>,
+    T: salsa20::cipher::BlockSizeUser;
+
+#[verifier::reject_recursive_types(R)]
+#[verifier::external_type_specification]
+#[verifier::external_body]
+#[verifier::allow(undeclared_external_trait)]
+pub struct ExXSalsaCore<R>(salsa20::XSalsaCore<R>) where R: generic_array::typenum::Unsigned;
+
+#[verifier::reject_recursive_types(B)]
+#[verifier::reject_recursive_types(U)]
+#[verifier::external_type_specification]
+#[verifier::external_body]
+pub struct ExUInt<U, B>(generic_array::typenum::UInt<U, B>);
+
+#[verifier::external_type_specification]
+#[verifier::external_body]
+pub struct ExUTerm(generic_array::typenum::UTerm);
+
+#[verifier::external_type_specification]
+#[verifier::external_body]
+pub struct ExB1(generic_array::typenum::B1);
+
+#[verifier::external_type_specification]
+#[verifier::external_body]
+pub struct ExB0(generic_array::typenum::B0);
+
+// ---- XSalsa20 (salsa20 crate): ghost view (key, nonce, position in the keystream) ---------------
+pub uninterp spec fn xs_key(c: &salsa20::XSalsa20) -> Seq<u8>;
+
+pub uninterp spec fn xs_nonce(c: &salsa20::XSalsa20) -> Seq<u8>;
+
+pub uninterp spec fn xs_pos(c: &salsa20::XSalsa20) -> int;
+
+/// byte i of the XSalsa20 keystream for (key, nonce): ASSUMED to be what the salsa20 crate computes
+pub uninterp spec fn xsalsa20_stream(k: Seq<u8>, n: Seq<u8>, i: int) -> u8;
+
+/// m XOR keystream[off..]
+pub open spec fn xs_xor(m: Seq<u8>, k: Seq<u8>, n: Seq<u8>, off: int) -> Seq<u8> {
+    Seq::new(m.len(), |i: int| m[i] ^ xsalsa20_stream(k, n, off + i))
+}
+
+/// R2 shim for `XSalsa20::new(GenericArray::from_slice(key), GenericArray::from_slice(nonce))`
+#[verifier::external_body]
+pub fn shim_xsalsa20_new(key: &[u8; 32], nonce: &[u8; 24]) -> (c: salsa20::XSalsa20)
+    ensures
+        xs_key(&c) == key@,
+        xs_nonce(&c) == nonce@,
+        xs_pos(&c) == 0,
+{
+    use salsa20::cipher::KeyIvInit;
+    salsa20::XSalsa20::new(
+        generic_array::GenericArray::from_slice(key),
+        generic_array::GenericArray::from_slice(nonce),
+    )
+}
+
+/// R2 shim for `cipher.apply_keystream(buf)`
+#[verifier::external_body]
+pub fn shim_xsalsa20_apply(c: &mut salsa20::XSalsa20, buf: &mut [u8])
+    ensures
+        xs_key(final(c)) == xs_key(old(c)),
+        xs_nonce(final(c)) == xs_nonce(old(c)),
+        xs_pos(final(c)) == xs_pos(old(c)) + old(buf)@.len(),
+        final(buf)@ == xs_xor(old(buf)@, xs_key(old(c)), xs_nonce(old(c)), xs_pos(old(c))),
+{
+    use salsa20::cipher::StreamCipher;
+    c.apply_keystream(buf)
+}
+
+// ---- subtle ------------------------------------------------------------------------------------
+/// R2 shim for `a.ct_eq(b).unwrap_u8()` on byte slices
+#[verifier::external_body]
+pub fn shim_ct_eq(a: &[u8], b: &[u8]) -> (r: u8)
+    ensures
+        r == 1 <==> a@ == b@,
+        r == 0 || r == 1,
+{
+    use subtle::ConstantTimeEq;
+    a.ct_eq(b).unwrap_u8()
+}
+
+// ---- zeroize -----------------------------------------------------------------------------------
+/// R2 shim for `x.zeroize()` on a byte slice / array
+#[verifier::external_body]
+pub fn shim_zeroize(a: &mut [u8])
+    ensures
+        final(a)@ == crate::verif_spec::zeros(old(a)@.len()),
+{
+    use zeroize::Zeroize;
+    a.zeroize()
+}
+
+} // verus!
